@@ -820,6 +820,11 @@ class Bytecode:
             line_offset = first_line - co.co_firstlineno
         else:
             line_offset = 0
+        if self.opc.version_tuple >= (3, 11) and hasattr(co, "co_exceptiontable"):
+            # exception-handler targets are jump targets too (as in __iter__)
+            exception_entries = parse_exception_table(co.co_exceptiontable)
+        else:
+            exception_entries = None
         return get_instructions_bytes(
             co.co_code,
             self.opc,
@@ -829,6 +834,7 @@ class Bytecode:
             cell_names,
             line_starts,
             line_offset,
+            exception_entries=exception_entries,
         )
 
 
